@@ -92,14 +92,16 @@ def planOr (cfg : Cfg) (g : Group) : Plan :=
     | some hs => if hs.isEmpty then .bypass else .orUnion hs
     | none => .bypass
 
+/-- `PlanFilter(sub)` yields an OR-union (only a non-empty OR group can) -/
+def unionOf (cfg : Cfg) (s : Group) : Option (List Hint) :=
+  if s.isEmpty || !s.isOr then none
+  else (match planOr cfg s with | .orUnion hs => some hs | _ => none)
+
 /-- first sub-group that `PlanFilter` turns into an OR-union, with the remaining sub-groups -/
 def firstUnionSub (cfg : Cfg) : List Group → Option (List Hint × List Group)
   | [] => none
   | s :: rest =>
-    let viaOr : Option (List Hint) :=
-      if s.isEmpty || !s.isOr then none
-      else (match planOr cfg s with | .orUnion hs => some hs | _ => none)
-    match viaOr with
+    match unionOf cfg s with
     | some hs => some (hs, rest)
     | none => (match firstUnionSub cfg rest with
                | some (hs, rest') => some (hs, s :: rest')
@@ -220,7 +222,7 @@ def bucketExec (cfg : Cfg) (store : List Rec) (q : Query) (full : Group) (hints 
   let c0 := candidates cfg store hints
   let c1 := if cfg.bucketChecksAttr then c0.filter (carries q.slot) else c0
   -- applyTimeRange: every beacon type, the key index has timestamp 0
-  let c2 := if hasWindow q then c1.filter (inWindow q) else c1
+  let c2 := if hasWindow q && (!cfg.bucketWindowTimeOnly || q.slot != .key) then c1.filter (inWindow q) else c1
   let rows := sortRecs q.slot q.asc c2
   let labelG := if cfg.labelReattach then some full else residual
   if cfg.bucketPagingAfterFilter then
